@@ -252,6 +252,49 @@ func C11(c *fw.Ctx) {
 				}
 			}
 		}
+		// climb and close: A, B, an explicit C that is legal after them (it may have to climb out of B, or out of A as well, to
+		// find its parent), optionally one child of C, the ")", and then every D: after the parenthesis the context is C's
+		// *parent* - not the place C was met in (enumerated over all A, B, C; D: every directive the reference accepts there and
+		// every 25th / fifth it refuses; quick: A without parentheses)
+		closeIdx := -1
+		for i, t := range al {
+			if t.close {
+				closeIdx = i
+			}
+		}
+		climbs := 0
+		for a := 0; a < n; a++ {
+			if al[a].close || al[a].open || (c.Quick() && al[a].explicit) {
+				continue
+			}
+			for b := 0; b < n; b++ {
+				if al[b].close || al[b].open || al[b].explicit {
+					continue
+				}
+				for ci := 0; ci < n; ci++ {
+					if !al[ci].explicit {
+						continue
+					}
+					pre := []ref.CtxToken{al[a].tok(), al[b].tok(), al[ci].tok()}
+					if v := ref.RunContext(pre); !(v.OK || v.Class == "not-closed") {
+						continue
+					}
+					for d := 0; d < n; d++ {
+						if al[d].close || al[d].open || (c.Quick() && d%3 != (a+b+ci)%3) {
+							continue
+						}
+						full := append(append([]ref.CtxToken(nil), pre...), al[closeIdx].tok(), al[d].tok())
+						v := ref.RunContext(full)
+						if !(v.OK || v.Class == "not-closed") && (a+b+ci+d)%c.Pick(25, 5) != 0 {
+							continue
+						}
+						climbs++
+						emitSeq(emit, []ctxTokenR{al[a], al[b], al[ci], al[closeIdx], al[d]}, fmt.Sprintf("climb/%d,%d,%d,%d,%d", a, b, ci, closeIdx, d))
+					}
+				}
+			}
+		}
+		c.Inc("families", "climb-and-close", climbs)
 		r := gen.Rng(c.Seed, c.ID, "long")
 		for i := 0; i < nRandom; i++ {
 			l := 4 + r.Intn(5)
